@@ -190,7 +190,7 @@ func runNQuads(c *vrt.Ctx) {
 				c.Violationf("rdf.ParseNQuad|own-string|statement-differs", rp, "ParseNQuad(%q) = %+v, want %+v", line, *back, st)
 			}
 			report(c, t, "rdf.ParseNQuad", []byte(line), 0, res)
-			if c.WantSample() && i%997 == 0 {
+			if c.WantSample() && i == 0 {
 				c.Sample(map[string]any{"codec": "rdf.ParseNQuad", "line": clipS(line, 200)})
 			}
 			return
